@@ -61,6 +61,10 @@ func ToV3WithLoader(doc2 *openapi2.T, loader *openapi3.Loader, location *url.URL
 			case v3RequestBody != nil:
 				doc3.Components.RequestBodies[k] = v3RequestBody
 			case v3SchemaMap != nil:
+				if _, ok := doc2.Definitions[k]; ok {
+					// components.schemas[k] is the definition: the parameter is converted where it is used
+					break
+				}
 				for _, v3Schema := range v3SchemaMap {
 					doc3.Components.Schemas[k] = v3Schema
 				}
@@ -168,6 +172,9 @@ func ToV3Operation(doc2 *openapi2.T, components *openapi3.Components, pathItem *
 	var reqBodies []*openapi3.RequestBodyRef
 	formDataSchemas := make(map[string]*openapi3.SchemaRef)
 	for _, parameter := range operation.Parameters {
+		if shared := sharedFormDataParameterNamedAsDefinition(doc2, parameter); shared != nil {
+			parameter = shared
+		}
 		v3Parameter, v3RequestBody, v3SchemaMap, err := ToV3Parameter(components, parameter, consumes)
 		switch {
 		case err != nil:
@@ -198,6 +205,25 @@ func ToV3Operation(doc2 *openapi2.T, components *openapi3.Components, pathItem *
 		}
 	}
 	return doc3, nil
+}
+
+// sharedFormDataParameterNamedAsDefinition returns the shared formData parameter that parameter refers to
+// when its key is also the key of a definition. OpenAPI 3 has one namespace (components.schemas) for what
+// OpenAPI 2 keeps in two (#/parameters/ and #/definitions/), so such a parameter cannot be kept as a
+// component schema next to the definition: it is converted in the operations that use it.
+func sharedFormDataParameterNamedAsDefinition(doc2 *openapi2.T, parameter *openapi2.Parameter) *openapi2.Parameter {
+	if doc2 == nil || parameter == nil || !strings.HasPrefix(parameter.Ref, "#/parameters/") {
+		return nil
+	}
+	name := getParameterNameFromOldRef(parameter.Ref)
+	shared := doc2.Parameters[name]
+	if shared == nil || shared.In != "formData" {
+		return nil
+	}
+	if _, ok := doc2.Definitions[name]; !ok {
+		return nil
+	}
+	return shared
 }
 
 func getParameterNameFromOldRef(ref string) string {
